@@ -54,11 +54,11 @@ impl Default for GenCfg {
     fn default() -> Self {
         GenCfg {
             names: NameCfg::default(),
-            fam_id_list: false,
+            fam_id_list: true,
             fam_overlap: false,
             fam_object_parent: false,
-            fam_typename_only: false,
-            fam_mutual_rec: false,
+            fam_typename_only: true,
+            fam_mutual_rec: true,
             fam_double_variant: false,
             allow_id_variable: true,
             typename_on_objects_percent: 12,
